@@ -42,6 +42,8 @@ pub struct SynOpts {
   pub no_type_tagnum: bool,
   /// `$$name` only where a group name is expected (bare group entry)
   pub no_group_socket_in_type_pos: bool,
+  /// h'..' / b64'..' literals spelled over two lines with a `; text` inside the quotes (RFC 8610 section 3.1)
+  pub bytes_with_inner_comment: bool,
 }
 
 impl Default for SynOpts {
@@ -62,6 +64,7 @@ impl Default for SynOpts {
       no_bare_tag6: false,
       no_type_tagnum: false,
       no_group_socket_in_type_pos: false,
+      bytes_with_inner_comment: false,
     }
   }
 }
@@ -150,12 +153,29 @@ impl<'a, 'b, 'o> SynGen<'a, 'b, 'o> {
         1 => {
           let n = self.t.below(5);
           let v: Vec<u8> = (0..n).map(|_| self.t.below(256) as u8).collect();
-          Lit::bytes_hex(&v)
+          if self.o.bytes_with_inner_comment && n >= 2 && self.t.chance(1, 2) {
+            let mut sp = String::from("h'");
+            for (i, b) in v.iter().enumerate() {
+              if i == 1 {
+                sp.push_str(" ; inner-note\n  ");
+              }
+              sp.push_str(&format!("{:02x}", b));
+            }
+            sp.push('\'');
+            Lit::Bytes { kind: BytesKind::Hex, v, sp }
+          } else {
+            Lit::bytes_hex(&v)
+          }
         }
         _ => {
           let n = self.t.below(5);
           let v: Vec<u8> = (0..n).map(|_| self.t.below(256) as u8).collect();
-          Lit::Bytes { kind: BytesKind::B64, sp: format!("b64'{}'", b64url_nopad(&v)), v }
+          let enc = b64url_nopad(&v);
+          if self.o.bytes_with_inner_comment && enc.len() >= 3 && self.t.chance(1, 2) {
+            Lit::Bytes { kind: BytesKind::B64, sp: format!("b64'{} ; inner-note\n  {}'", &enc[..2], &enc[2..]), v }
+          } else {
+            Lit::Bytes { kind: BytesKind::B64, sp: format!("b64'{}'", enc), v }
+          }
         }
       },
     }
